@@ -46,7 +46,7 @@ def _ties():
 TIES = _ties()
 
 
-INT_NAMES = [3, 7, 10, 12]
+INT_NAMES = [-2, -1, 3, 7, 10, 12]      # -1 and -2 have the same hash in CPython
 STR_NAMES = ["a", "g10", "g2", "zz"]           # lexicographic order differs from "numeric" order
 LONG_NAMES = ["m", "female", "fr", "fr-CA"]    # unequal lengths, one a prefix of another: the two label arrays get different
                                                # fixed-width string dtypes when the longest name occurs in one class only
